@@ -14,7 +14,8 @@ from vk.symx.harness import decide, decide_true, native_pair, native_cond
 from vk.symx.poly import VarFactory
 
 
-def prove(run):
+def prove(run, only_updates=False):
+    """only_updates: just the renormalised-basis updates of the two-site algorithms (used by C08)"""
     from renormalizer.mps import Mpo, MpDm
     from renormalizer.utils import CompressConfig, CompressCriteria
     shapes = [("spinqn", 3), ("holstein", 3), ("spin2qn", 3)] if run.tier == "quick" else [("spinqn", 3), ("spinqn", 4), ("holstein", 3), ("holstein", 4), ("spin2qn", 3), ("spin2qn", 4), ("spin", 3)]
@@ -75,9 +76,31 @@ def prove(run):
                         x.compress(temp_m_trunc=[10 ** 3] * (n + 1))
                         return x.compress(temp_m_trunc=10 ** 3)
                     yield "lossless_compress_both_directions_list_limits", "MatrixProduct.compress", lossless2
+                    # the renormalised-basis update of the two-site algorithms (DMRG, TDVP-PS2): svd_qn(full) -> compute_m_trunc -> select_basis -> write back,
+                    # bond by bond in both directions, with and without the per-sector perturbation; limit above every block size: nothing is lost
+                    def two_site_sweep(percent):
+                        def f(x):
+                            x = x.ensure_left_canonical()
+                            x.compress_config = big
+                            for _half in range(2):
+                                for imps in list(x.iter_idx_list(full=True)):
+                                    if (x.to_right and imps == n - 1) or ((not x.to_right) and imps == 0):
+                                        break
+                                    cidx = [imps, imps + 1] if x.to_right else [imps - 1, imps]
+                                    qnbigl, qnbigr, _ = x._get_big_qn(cidx)
+                                    cs = np.tensordot(np.asarray(x[cidx[0]].array), np.asarray(x[cidx[1]].array), axes=1)
+                                    x._update_mps(cs, cidx, qnbigl, qnbigr, percent)
+                                x._switch_direction()
+                            return x
+                        return f
+                    if n >= 2:
+                        yield "two_site_update_sweep", "MatrixProduct._update_mps", two_site_sweep(0)
+                        yield "two_site_update_sweep_with_sector_perturbation", "MatrixProduct._update_mps", two_site_sweep(0.5)
                 with SH.kernel_stub_mode():
                     da = S.dense(a)
                     for opname, fn, f in ops():
+                        if only_updates and fn != "MatrixProduct._update_mps":
+                            continue
                         try:
                             c = f(a.copy())
                         except Exception as e:
@@ -89,13 +112,58 @@ def prove(run):
                         v = S.qnv_violations(c)
                         decide_true(run, f"post:{fn}:{opname}:labels_valid@{tag}", fn, not v and np.all(np.asarray(c.qntot) == np.asarray(a.qntot)), f"{v[:1]}", case,
                                     numeric_replay=native_cond((lambda f_: lambda: (lambda r_: (not S.qnv_violations(r_), S.qnv_violations(r_)[:1]))(f_(atc.copy())))(f), how))
+                        if fn == "MatrixProduct._update_mps":
+                            continue        # the two-site update uses full factorisations precisely to let a bond grow
                         decide_true(run, f"post:{fn}:{opname}:no_bond_grows@{tag}", fn, all(x <= y for x, y in zip(c.bond_dims, a.bond_dims)),
                                     f"{list(a.bond_dims)} -> {list(c.bond_dims)}", case,
                                     numeric_replay=native_cond((lambda f_: lambda: (lambda r_: (all(x <= y for x, y in zip(r_.bond_dims, atc.bond_dims)), list(r_.bond_dims)))(f_(atc.copy())))(f), how))
-                    decide(run, f"frame:MatrixProduct.copy:gauge_moves_on_copies_leave_the_original@{tag}", "MatrixProduct.copy", S.dense(a), da, case)
+                    if not only_updates:
+                        decide(run, f"frame:MatrixProduct.copy:gauge_moves_on_copies_leave_the_original@{tag}", "MatrixProduct.copy", S.dense(a), da, case)
+                    if n >= 2 and gauge == "fresh":
+                        _state_averaged_updates(run, a, atc, vf, big, n, tag, case, how)
     run.extra.setdefault("symx", {})["C04_kernel_stub"] = {"cases": ncase, "kernel_stubs": SH.KERNEL_STUBS, "shims": SH.SHIMS}
     if ncase == 0:
         run.crash("C04_kernel: no case generated")
+
+
+def _state_averaged_updates(run, a, atc, vf, big, n, tag, case, how):
+    """MatrixProduct._update_mps with a LIST of two-site coefficient tensors (state-averaged DMRG): density matrix -> eigh_qn -> select_basis -> rotation of every root.
+    With a limit above every block size the kept basis is complete on the support of the roots: ms (x) rotated_c[k] == c_k for every root k, for all tensor values;
+    the object written back represents root 0; labels stay valid."""
+    from vk.symx.poly import Poly
+    fn = "MatrixProduct._update_mps"
+    x = a.copy().ensure_left_canonical()
+    x.compress_config = big
+    for _half in range(2):
+        for imps in list(x.iter_idx_list(full=True)):
+            if (x.to_right and imps == n - 1) or ((not x.to_right) and imps == 0):
+                break
+            cidx = [imps, imps + 1] if x.to_right else [imps - 1, imps]
+            qnbigl, qnbigr, _ = x._get_big_qn(cidx)
+            c1 = np.tensordot(np.asarray(x[cidx[0]].array), np.asarray(x[cidx[1]].array), axes=1)
+            support = np.vectorize(lambda e: bool(Poly.coerce(e)), otypes=[bool])(c1)
+            c2 = vf.array(c1.shape, mask=support)                   # a second root: independent values on the same symmetry-allowed support
+            y = x.copy()
+            y.compress_config = big
+            btag = f"{tag}:bond{cidx[0]}{'R' if x.to_right else 'L'}"
+            try:
+                rot = y._update_mps([c1, c2], cidx, qnbigl, qnbigr, 0)
+            except Exception as e:
+                decide_true(run, f"post:{fn}:state_averaged:total@{btag}", fn, False, f"raised on symbolic roots with stubbed kernels: {type(e).__name__}: {e}", case)
+                rot = None
+            if rot is not None:
+                decide_true(run, f"post:{fn}:state_averaged:one_rotated_tensor_per_root@{btag}", fn, len(rot) == 2, f"{len(rot)} rotated tensors for 2 roots", case)
+                for k, ck in enumerate((c1, c2)):
+                    if k < len(rot):
+                        back = (np.tensordot(np.asarray(y[cidx[0]].array), np.asarray(rot[k]), axes=1) if y.to_right
+                                else np.tensordot(np.asarray(rot[k]), np.asarray(y[cidx[1]].array), axes=1))
+                        decide(run, f"post:{fn}:state_averaged:root[{k}]_reproduced_by_the_kept_basis@{btag}", fn, back, ck, case)
+                decide(run, f"post:{fn}:state_averaged:object_written_back_is_root_0@{btag}", fn, S.dense(y), S.dense(x), case)
+                v = S.qnv_violations(y)
+                decide_true(run, f"post:{fn}:state_averaged:labels_valid@{btag}", fn, not v, f"{v[:1]}", case)
+            # continue the sweep with the single-root update (proved above)
+            x._update_mps(c1, cidx, qnbigl, qnbigr, 0)
+        x._switch_direction()
 
 
 def _from_end(x):
